@@ -352,6 +352,8 @@ async fn run_delta(
     let sig_data = tokio::fs::read(signature).await?;
     let sig: copia::Signature = bincode::deserialize(&sig_data)?;
 
+    // The block size comes from an untrusted file: report it, never assert on it.
+    validate_block_size(sig.block_size)?;
     let sync = AsyncCopiaSync::with_block_size(sig.block_size);
 
     let file_handle = tokio::fs::File::open(source).await?;
@@ -386,6 +388,8 @@ async fn run_patch(
     let delta_data = tokio::fs::read(delta).await?;
     let delta: copia::Delta = bincode::deserialize(&delta_data)?;
 
+    // The block size comes from an untrusted file: report it, never assert on it.
+    validate_block_size(delta.block_size as usize)?;
     let sync = AsyncCopiaSync::with_block_size(delta.block_size as usize);
 
     let basis_file = tokio::fs::File::open(basis).await?;
